@@ -192,6 +192,21 @@ def cases(tier, seed):
         for extra in ([], G.transform_args("keep", "pipe") + ["--rf-over", "1"]):
             c = mk(tree_two(L, o), "cacherace", L, o, "metro", "ssd", ["--cache", "-t", "1"] + extra, tr=["keep", "pipe"] if extra else None)
             out.append(c)
+    # sparse files: data, a hole, data again (and a trailing hole): two classes that differ only BEHIND the first hole
+    MiB = 1 << 20
+    for layout, segsA, segsB, L in (
+            ("data_hole_data", [[0, ["base", 8192, 1]], [512 * 1024, ["base", 65536, 2]]],
+             [[0, ["base", 8192, 1]], [512 * 1024, ["flip", 65536, 2, 100]]], MiB),
+            ("hole_first", [[65536, ["base", 4096, 1]], [300000, ["base", 5000, 2]]],
+             [[65536, ["base", 4096, 1]], [300000, ["flip", 5000, 2, 4999]]], 400000),
+            ("trailing_hole", [[0, ["base", 70000, 1]]], [[0, ["flip", 70000, 1, 69999]]], MiB)):
+        tree = [{"p": "r/d1/A1", "k": "sparse", "len": L, "segs": segsA}, {"p": "r/d2/A2", "k": "sparse", "len": L, "segs": segsA},
+                {"p": "r/d1/B1", "k": "sparse", "len": L, "segs": segsB}, {"p": "r/d2/B2", "k": "sparse", "len": L, "segs": segsB}]
+        for h, d, extra in (("metro", "ssd", []), ("blake3", "unknown", []), ("metro", "ssd", ["--max-prefix-size", "65536", "--max-suffix-size", "65536"]),
+                            ("metro", "ssd", ["-t", "1"]), ("metro", "ssd", ["--cache"])):
+            c = mk(tree, "two", L, 0, h, d, extra, repeat=2 if "--cache" in extra else 1)
+            c["meta"]["sparse"] = layout
+            out.append(c)
     # length-changing transforms on trees with hard links (one hash per file id is shared by all its names)
     for L in (10, 5000):
         for op in ("shrink", "double", "prefix"):
